@@ -45,14 +45,37 @@
                        (C08 for Map).
      C03_instance      the extracted machine that CORR-sched replays against map.go
                        meets the hypotheses.
-   Not proved for Map: the invariant about values and key uniqueness (MapOf: C04_cells),
-   the abstract map and its steps (MapOf: C04_abs_step);
+     C03_cells         (proofs/XS_cells.v) every reachable state, every published table,
+                       every bucket: the chain is shaped, keys are unique in it, and every
+                       slot is free, complete (key, value, presence bit, top hash of the
+                       key, key's home bucket is this one) or in one of the four exact
+                       half-written shapes of the thread named in the bucket's lock word,
+                       as that thread's program counter tells (QW_I2, QW_I3, QW_D2, QW_D3).
+                       Extra hypothesis: top hashes are 20-bit (true of tag_map on uint64).
+     C03_vis_step      (proofs/XS_vis.v) what a Load that starts now can find in a published
+                       table changes only at the linearization store of the holder of the
+                       bucket lock, as an update / removal of that writer's key:
+                       update = the value-pointer store (QW_U1); insert = the KEY-pointer
+                       store, last of the three (QW_I3; after the first two a reader still
+                       misses); insert into a new bucket = the store of b.next (QW_N1);
+                       delete = the store that erases the top hash, first of the three
+                       (QW_D1).  C03_vis_functional: at most one value per key.
+     C03_abs_step      (proofs/XS_abs.v) the abstract map (what is visible in the current
+                       table) changes by exactly that update at a linearization store on
+                       the current table and not at all at any other step that keeps the
+                       table pointer; the store that publishes a table makes the abstract
+                       map the visible content of that table, which is empty when the
+                       table was allocated by a Clear.  NOT proved: that the table a grow
+                       or shrink publishes has the content of the table it replaces (the
+                       MapOf machine has it: C04_abs_step).
+   Not proved for Map: that a solo Load returns exactly svis (the definition is read off
+   the reader's value / key / value snapshot); the grow / shrink half of C03_abs_step;
    the concurrent behaviour of map.go beyond the above is decided by the step correspondence and by search: the real code under
    the controlled scheduler (random / PCT schedules at the granularity of single
    atomic operations, tables at the grow / shrink thresholds, Clear), every
    history checked for linearizability against map[string]interface{}. *)
 From CacheV Require Import Base SpecMap TableModel TabExec Exec XMachineS XExec XExecS.
-From CacheV.proofs Require Import C11_lists C11_table C11_idx X_maps XS_inv XS_lock XS_own XS_count XS_inst.
+From CacheV.proofs Require Import C11_lists C11_table C11_idx X_maps XS_inv XS_lock XS_own XS_count XS_inst XS_cells XS_vis XS_abs XS_cinst.
 From Coq Require Import NArith.
 
 Theorem C03_sequential :
@@ -171,6 +194,7 @@ Example C03_locks_nonvacuous :
   sholds (fun k _ => N.of_nat k) (fun h len => Nat.modulo (N.to_nat h) len) 3%nat (fun _ => 1%nat) s (h_pc s 0%nat) = Some (0%nat, 0%nat)
   /\ lock_of 3%nat (fun _ => 1%nat) s 0%nat 0%nat = Some 0%nat.
 Proof. exact lock_nonvacuous. Qed.
+Print Assumptions C03_locks_nonvacuous.
 Example C03_counter_nonvacuous :
   let s := ex_sched [0; 0; 0; 0; 0; 0; 0; 0; 0; 0; 0]%nat in
   XS_count.tcount (stab_at 3%nat (fun _ => 1%nat) s 0%nat) = 1%Z
@@ -178,3 +202,107 @@ Example C03_counter_nonvacuous :
   /\ XS_count.owed 0%nat (h_pc s 0%nat) = 1%Z.
 Proof. exact count_nonvacuous. Qed.
 Print Assumptions C03_counter_nonvacuous.
+
+(* ---------------- cells, visibility, abstract map (XMachineS, every schedule) ---------------- *)
+
+Theorem C03_cells :
+  forall (K V : Type) (eqd : forall a b : K, {a = b} + {a <> b}) hash idx tophash nslots seeds g sh nstripes minlen grow_only,
+    shyps_cells hash idx tophash minlen nslots -> forall len0 todo sched, (0 < len0)%nat ->
+    let s := fst (@srun K V eqd hash idx tophash nslots seeds g sh nstripes minlen grow_only (sinit nslots seeds nstripes len0 todo) sched) in
+    forall tab b, (tab <= h_cur s)%nat -> (b < m_len (tabT nslots nstripes (h_tabs s) tab))%nat ->
+      let tb := tabT nslots nstripes (h_tabs s) tab in
+      XS_cells.shaped nslots (schain_of tb b) (ctops tb b) /\ XS_cells.uniq (schain_of tb b)
+      /\ forall pos, (pos < length (schain_of tb b))%nat ->
+           let sl := nth pos (schain_of tb b) empty_mslot in
+           let e := topent nslots (ctops tb b) pos in
+           sfree sl e \/ sfull hash idx tophash tb b sl e
+           \/ (exists t cx, lock_of nslots nstripes s tab b = Some t /\ shome hash idx tb (sc_k cx) = b
+                 /\ ((exists nv, h_pc s t = QW_I2 cx tab pos nv /\ ms_key sl = None /\ ms_val sl = None /\ e = (true, ktop hash tophash tb (sc_k cx)))
+                     \/ (exists nv id, h_pc s t = QW_I3 cx tab pos nv /\ ms_key sl = None /\ ms_val sl = Some (nv, id) /\ e = (true, ktop hash tophash tb (sc_k cx)))
+                     \/ (exists old ne id, h_pc s t = QW_D2 cx tab pos old ne /\ ms_key sl = Some (sc_k cx) /\ ms_val sl = Some (old, id) /\ fst e = false)
+                     \/ (exists old ne, h_pc s t = QW_D3 cx tab pos old ne /\ ms_key sl = Some (sc_k cx) /\ ms_val sl = None /\ fst e = false))).
+Proof.
+  intros K V eqd hash idx tophash nslots seeds g sh nstripes minlen grow_only [[H1 [H2 H3]] [H4 H5]] len0 todo sched Hl s tab b Ht Hb tb.
+  pose proof (reachable_XB eqd hash idx tophash nslots seeds g sh nstripes minlen grow_only H3 H4 H5 H1 H2 len0 todo sched Hl) as HX. fold s in HX.
+  destruct (chain_keys hash idx tophash nslots nstripes s tab b HX Ht Hb) as [A B]. split; [exact A|]. split; [exact B|].
+  intros pos Hp. apply (slot_states hash idx tophash nslots nstripes s tab b pos HX Ht Hb Hp).
+Qed.
+Print Assumptions C03_cells.
+
+Theorem C03_vis_step :
+  forall (K V : Type) (eqd : forall a b : K, {a = b} + {a <> b}) hash idx tophash nslots seeds g sh nstripes minlen grow_only,
+    shyps_cells hash idx tophash minlen nslots -> forall len0 todo sched t s' ls tab k v, (0 < len0)%nat ->
+    let s := fst (@srun K V eqd hash idx tophash nslots seeds g sh nstripes minlen grow_only (sinit nslots seeds nstripes len0 todo) sched) in
+    @sstep K V eqd hash idx tophash nslots seeds g sh nstripes minlen grow_only s t = Some (s', ls) -> (tab <= h_cur s)%nat ->
+    (svis hash idx tophash nslots (tabT nslots nstripes (h_tabs s') tab) k v
+     <-> XS_vis.upd_rel (svis hash idx tophash nslots (tabT nslots nstripes (h_tabs s) tab)) (XS_vis.lin_effect (h_pc s t) tab) k v).
+Proof.
+  intros K V eqd hash idx tophash nslots seeds g sh nstripes minlen grow_only [[H1 [H2 H3]] [H4 H5]] len0 todo sched t s' ls tab k v Hl.
+  apply (reachable_vis eqd hash idx tophash nslots seeds g sh nstripes minlen grow_only H3 H4 H5 H1 H2 len0 todo sched t s' ls tab k v Hl).
+Qed.
+Print Assumptions C03_vis_step.
+
+Theorem C03_vis_functional :
+  forall (K V : Type) (eqd : forall a b : K, {a = b} + {a <> b}) hash idx tophash nslots seeds g sh nstripes minlen grow_only,
+    shyps_cells hash idx tophash minlen nslots -> forall len0 todo sched tab k v v', (0 < len0)%nat ->
+    let s := fst (@srun K V eqd hash idx tophash nslots seeds g sh nstripes minlen grow_only (sinit nslots seeds nstripes len0 todo) sched) in
+    (tab <= h_cur s)%nat ->
+    svis hash idx tophash nslots (tabT nslots nstripes (h_tabs s) tab) k v ->
+    svis hash idx tophash nslots (tabT nslots nstripes (h_tabs s) tab) k v' -> v = v'.
+Proof.
+  intros K V eqd hash idx tophash nslots seeds g sh nstripes minlen grow_only [[H1 [H2 H3]] [H4 H5]] len0 todo sched tab k v v' Hl s Ht.
+  pose proof (reachable_XB eqd hash idx tophash nslots seeds g sh nstripes minlen grow_only H3 H4 H5 H1 H2 len0 todo sched Hl) as HX. fold s in HX.
+  apply (svis_fun hash idx tophash nslots nstripes H3 H1 s tab k v v' HX Ht).
+Qed.
+Print Assumptions C03_vis_functional.
+
+Theorem C03_abs_step :
+  forall (K V : Type) (eqd : forall a b : K, {a = b} + {a <> b}) hash idx tophash nslots seeds g sh nstripes minlen grow_only,
+    shyps_cells hash idx tophash minlen nslots -> forall len0 todo sched t s' ls k v, (0 < len0)%nat ->
+    let s := fst (@srun K V eqd hash idx tophash nslots seeds g sh nstripes minlen grow_only (sinit nslots seeds nstripes len0 todo) sched) in
+    @sstep K V eqd hash idx tophash nslots seeds g sh nstripes minlen grow_only s t = Some (s', ls) ->
+    (h_cur s' = h_cur s
+     /\ (sabs hash idx tophash nslots nstripes s' k v
+         <-> XS_vis.upd_rel (sabs hash idx tophash nslots nstripes s) (XS_vis.lin_effect (h_pc s t) (h_cur s)) k v))
+    \/ (exists kt new, h_pc s t = QR_Publish kt new /\ h_cur s' = new /\ (h_cur s < new)%nat
+          /\ (sabs hash idx tophash nslots nstripes s' k v <-> svis hash idx tophash nslots (tabT nslots nstripes (h_tabs s) new) k v)).
+Proof.
+  intros K V eqd hash idx tophash nslots seeds g sh nstripes minlen grow_only [[H1 [H2 H3]] [H4 H5]] len0 todo sched t s' ls k v Hl s E.
+  pose proof (reachable_XB eqd hash idx tophash nslots seeds g sh nstripes minlen grow_only H3 H4 H5 H1 H2 len0 todo sched Hl) as HX. fold s in HX.
+  apply (XS_abs.abs_step eqd hash idx tophash nslots seeds g sh nstripes minlen grow_only H3 H4 H1 H2 s t s' ls k v HX E).
+Qed.
+Print Assumptions C03_abs_step.
+
+(* the table a Clear allocates has no key, and publishing a table without keys empties the abstract map *)
+Theorem C03_clear_empties :
+  forall (K V : Type) (eqd : forall a b : K, {a = b} + {a <> b}) hash idx tophash nslots seeds g sh nstripes minlen grow_only,
+    shyps_cells hash idx tophash minlen nslots -> forall len0 todo sched t s' ls, (0 < len0)%nat ->
+    let s := fst (@srun K V eqd hash idx tophash nslots seeds g sh nstripes minlen grow_only (sinit nslots seeds nstripes len0 todo) sched) in
+    @sstep K V eqd hash idx tophash nslots seeds g sh nstripes minlen grow_only s t = Some (s', ls) ->
+    (forall kt, h_pc s t = QR_Table SHClear kt ->
+       h_pc s' t = QR_Publish kt (length (h_tabs s)) /\ forall k, ~ tkey (tabT nslots nstripes (h_tabs s') (length (h_tabs s))) k)
+    /\ (forall kt new, h_pc s t = QR_Publish kt new -> (forall k, ~ tkey (tabT nslots nstripes (h_tabs s) new) k) ->
+         forall k v, ~ sabs hash idx tophash nslots nstripes s' k v).
+Proof.
+  intros K V eqd hash idx tophash nslots seeds g sh nstripes minlen grow_only [[H1 [H2 H3]] [H4 H5]] len0 todo sched t s' ls Hl s E.
+  pose proof (reachable_XB eqd hash idx tophash nslots seeds g sh nstripes minlen grow_only H3 H4 H5 H1 H2 len0 todo sched Hl) as HX. fold s in HX.
+  split.
+  - intros kt Hp. apply (clear_alloc eqd hash idx tophash nslots seeds g sh nstripes minlen grow_only H3 H4 H2 s t s' ls kt E Hp).
+  - intros kt new Hp Hk. apply (publish_no_keys eqd hash idx tophash nslots seeds g sh nstripes minlen grow_only H3 H4 H1 H2 s t s' ls kt new HX E Hp Hk).
+Qed.
+Print Assumptions C03_clear_empties.
+
+Theorem C03_cells_instance :
+  forall o hint, oracle64 o -> shyps_cells (hash_of o) idx_map tag_map (minlen_of_hint false hint) (nslots_of false).
+Proof. exact s_instance_hyps_cells. Qed.
+Print Assumptions C03_cells_instance.
+
+(* non-vacuity: a slot in the middle of an insert (value stored, key not yet), as its writer's program counter tells *)
+Example C03_cells_nonvacuous :
+  let s := ex_sched [0; 0; 0; 0; 0; 0; 0; 0; 0; 0]%nat in
+  let sl := nth 0 (schain_of (stab_at 3%nat (fun _ => 1%nat) s 0%nat) 0%nat) empty_mslot in
+  (exists cx, h_pc s 0%nat = QW_I3 cx 0%nat 0%nat 1%nat)
+  /\ ms_key sl = None /\ ms_val sl = Some (1%nat, 0%nat)
+  /\ topent 3%nat (ctops (stab_at 3%nat (fun _ => 1%nat) s 0%nat) 0%nat) 0%nat = (true, 7%N).
+Proof. exact cells_nonvacuous. Qed.
+Print Assumptions C03_cells_nonvacuous.
